@@ -103,7 +103,17 @@ fn main() {
   });
   w("jd_attached_and_detached_payload", || {
     let jws = format!("{}.{}.{}", b64(r#"{"alg":"EdDSA"}"#), b64("{}"), b64("sig"));
-    if Decoder::new().decode_compact_serialization(jws.as_bytes(), Some(b"other")).is_ok() { return Err("compact: attached + detached payload accepted".into()); }
+    for detached in [&b"other"[..], &b"e30"[..], &b""[..]] {
+      if Decoder::new().decode_compact_serialization(jws.as_bytes(), Some(detached)).is_ok() { return Err(format!("compact: attached + detached payload {:?} accepted", String::from_utf8_lossy(detached))); }
+    }
+    // anything after the third segment makes it another token: never ignored
+    for tail in [".", ".x", ".e30", ".a.b", ".."] {
+      let t = format!("{jws}{tail}");
+      if Decoder::new().decode_compact_serialization(t.as_bytes(), None).is_ok() { return Err(format!("compact: token followed by {tail:?} accepted")); }
+    }
+    let detached_form = format!("{}..{}", b64(r#"{"alg":"EdDSA"}"#), b64("sig"));
+    if Decoder::new().decode_compact_serialization(detached_form.as_bytes(), Some(b"e30")).is_err() { return Err("compact: detached form with a detached payload refused".into()); }
+    if Decoder::new().decode_compact_serialization(detached_form.as_bytes(), None).is_ok() { return Err("compact: empty payload segment without a detached payload accepted".into()); }
     let f = format!(r#"{{"payload":"{}","protected":"{}","signature":"{}"}}"#, b64("{}"), b64(r#"{"alg":"EdDSA"}"#), b64("sig"));
     if Decoder::new().decode_flattened_serialization(f.as_bytes(), Some(b"other")).is_ok() { return Err("flattened: attached + detached payload accepted".into()); }
     Ok(())
